@@ -1,0 +1,16 @@
+//go:build verif
+
+// Contracts for package helper, checked by /verif/govc. Comments only.
+
+package helper
+
+//@ func ErrToStrPtr
+//@   ensures [nilness] (res == nil) <==> (err == nil)
+//@   ensures [fresh] res != nil ==> fresh(res)
+//@   modifies nothing
+
+//@ func StrPtrToErr
+//@   ensures [nil] s == nil ==> res == nil
+//@   ensures [empty] s != nil && *s == "" ==> res == nil
+//@   ensures [nonempty] s != nil && *s != "" ==> res != nil
+//@   modifies nothing
